@@ -43,3 +43,23 @@ Fixpoint block_go (l : list bitem) (last : option nat) (need_sep : bool) (i : na
 Definition block_value (l : list bitem) : bresult := block_go l None false 0.
 
 Definition is_semi (b : bitem) : bool := match b with BSemi => true | _ => false end.
+
+(* ---- statement sequences: Parser::parse (top level) and Parser::block_statements ({ ... } of
+   functions, loops, if statements, lambdas):
+        while not at the end (`}` / end of input):  if `;`: skip it;  else declaration()
+   A declaration that does not end with its own `}` finishes with consume_semicolon, which
+   consumes a `;`, accepts a `}` without consuming it, and rejects anything else -- the end of
+   input included (the lexer always adds a `;` there after a statement-ending token).
+     SSemi   a TSemicolon      STerm  a statement ending with consume_semicolon (expression
+     statement, let, return, break, continue)      SBlock  a statement ending with its own `}`
+   Result: the number of statements, or None when the text is rejected.  (As for value blocks,
+   two items written next to each other that could merge into one expression are not modelled.) *)
+Inductive sitem := SSemi | STerm | SBlock.
+Fixpoint seq_go (top : bool) (l : list sitem) (need_sep : bool) (n : nat) : option nat :=
+  match l with
+  | [] => if need_sep && top then None else Some n
+  | SSemi :: r => seq_go top r false n
+  | STerm :: r => if need_sep then None else seq_go top r true (S n)
+  | SBlock :: r => if need_sep then None else seq_go top r false (S n)
+  end.
+Definition parse_sequence (top : bool) (l : list sitem) : option nat := seq_go top l false 0.
